@@ -33,14 +33,14 @@ def is_parking_function(sequence: List[int], n: Optional[int] = None) -> bool:
         >>> is_parking_function([2, 1, 1])
         True
     """
-    if not sequence:
-        return True
-    
     if n is None:
         n = len(sequence)
     
     if len(sequence) != n:
         return False
+    
+    if not sequence:
+        return True
     
     # Check that all elements are in range [1, n]
     if not all(1 <= x <= n for x in sequence):
